@@ -7,7 +7,8 @@
     non-exact branch pattern match every document), [q] over ALL query trees, [d] over all
     documents. *)
 From ZV Require Import Lib.Base Model.Query Model.QueryStd.
-From ZV Require Import Proofs.QueryInd Proofs.QuerySimplify Proofs.QueryShard Proofs.QueryTerm Proofs.QueryStdOk.
+From ZV Require Import Proofs.QueryInd Proofs.QuerySimplify Proofs.QueryShard Proofs.QueryTerm Proofs.QueryStdOk Proofs.QueryKinds.
+From ZV Require Import Generated.C05QKinds.
 
 (** constant folding (evalConstants, evalAndOrConstants, invertConst) *)
 Theorem C05_evalConstants_preserves :
@@ -82,6 +83,16 @@ Proof.
   intros. rewrite expand_preserves. now apply shard_simplify_preserves.
 Qed.
 Print Assumptions C05_search_pipeline_preserves.
+
+(** Tie (not a property statement): every Go type of package query with a String() method - the
+    list is regenerated from /repo/query/*.go on each run - is a constructor of the model's [Q]
+    (or one of the two parser-internal non-nodes), and vice versa.  A node kind added to the code
+    breaks this lemma instead of silently staying outside the quantification "all query trees". *)
+Theorem C05_tie_model_covers_go_query_kinds :
+  forallb (kind_in (map q_kind q_reps ++ not_query_nodes)) c05_go_qkinds = true /\
+  forallb (kind_in c05_go_qkinds) (map q_kind q_reps) = true.
+Proof. split; [exact go_kinds_covered_by_model | exact model_kinds_exist_in_go]. Qed.
+Print Assumptions C05_tie_model_covers_go_query_kinds.
 
 (** ---------------------------------------------------------------- non-vacuity *)
 
